@@ -466,6 +466,28 @@ func init() {
 		return c03Finish(t, final, strings.Join(parts, "\n"))
 	})
 
+	// [ver; event text as on the wire]: NewEventFromUntrustedJSON, then a trusted parse of the event's
+	// own JSON(); the accessors of both
+	RegisterImpl("C03.own_json", func(args [][]byte) ([][]byte, []byte) {
+		final := append([][]byte{}, args[:2]...)
+		verImpl, err := gmsl.GetRoomVersion(gmsl.RoomVersion(args[0]))
+		if err != nil {
+			return final, B("badargs")
+		}
+		e, err := verImpl.NewEventFromUntrustedJSON(append([]byte{}, args[1]...))
+		if e == nil || err != nil {
+			return final, B("err")
+		}
+		parts := []string{c03Section("parsed", c03Dump(e))}
+		f, err := verImpl.NewEventFromTrustedJSON(append([]byte{}, e.JSON()...), e.Redacted())
+		if err != nil || f == nil {
+			parts = append(parts, c03Section("own_json", "err"))
+		} else {
+			parts = append(parts, c03Section("own_json", c03Dump(f)))
+		}
+		return final, []byte(strings.Join(parts, "\n"))
+	})
+
 	RegisterProp("C03", genC03)
 }
 
@@ -674,6 +696,88 @@ func (g c03Gen) proto(ver string) [][]byte {
 	origin := g.pick([]string{"example.org", "h:8448", "other.example.org"})
 	keyid := g.pick([]string{"ed25519:auto", "ed25519:1", "ed25519:old"})
 	return Args(ver, sender, room, typ, skflag, skey, g.idList(ver), g.idList(ver), redacts, depth, sigs, g.content(typ), unsigned, "", ts, origin, keyid)
+}
+
+func verImplOf(ver string) gmsl.IRoomVersion {
+	v, _ := gmsl.GetRoomVersion(gmsl.RoomVersion(ver))
+	return v
+}
+
+// c03OwnJSON: the event with extra members appended LAST on the wire (content hash recomputed over
+// the whole, so the event is accepted unredacted), exact-name oracle only (the value model
+// does not represent encoding/json's member matching).
+func c03OwnJSON(c *Ctx, ver string, base []byte, desc string) {
+	type member struct{ k, v string }
+	families := [][]member{
+		{{"Type", `"m.room.message"`}, {"State_key", `null`}, {"Content", `{"body":"hello"}`}},
+		{{"Type", `"m.room.power_levels"`}, {"State_key", `""`}, {"Content", `{"users":{"@mallory:evil.example":100}}`}},
+		{{"TYPE", `"m.room.member"`}},
+		{{"Sender", `"@mallory:evil.example"`}},
+		{{"ſender", `"@mallory:evil.example"`}},
+		{{"state_Key", `"@mallory:evil.example"`}},
+		{{"origin_ſerver_ts", `1`}},
+		{{"Depth", `424242`}},
+		{{"Redacts", `"$elsewhere"`}},
+		{{"redactſ", `"$elsewhere"`}},
+		{{"Room_id", `"!elsewhere:evil.example"`}},
+		{{"Prev_events", `[]`}, {"Auth_events", `[]`}},
+		{{"zzz_unrelated", `{"a":1}`}}, // control: a member nobody reads
+	}
+	for fi, fam := range families {
+		var m map[string]json.RawMessage
+		if json.Unmarshal(base, &m) != nil {
+			return
+		}
+		for _, mem := range fam {
+			m[mem.k] = json.RawMessage(mem.v)
+		}
+		js, err := json.Marshal(m)
+		if err != nil {
+			continue
+		}
+		hashed, err := gmsl.VerifC03AddContentHashes(js)
+		if err != nil {
+			continue
+		}
+		var hm map[string]json.RawMessage
+		if json.Unmarshal(hashed, &hm) != nil {
+			continue
+		}
+		for _, mem := range fam {
+			delete(hm, mem.k)
+		}
+		body, err := json.Marshal(hm)
+		if err != nil {
+			continue
+		}
+		if cj, err := gmsl.CanonicalJSON(body); err == nil {
+			body = cj
+		}
+		for _, first := range []bool{false, true} {
+			var sb strings.Builder
+			if first {
+				sb.WriteString("{")
+				for _, mem := range fam {
+					kb, _ := json.Marshal(mem.k)
+					sb.Write(kb)
+					sb.WriteString(":" + mem.v + ",")
+				}
+				sb.Write(body[1:])
+			} else {
+				sb.Write(body[:len(body)-1])
+				for _, mem := range fam {
+					kb, _ := json.Marshal(mem.k)
+					sb.WriteString(",")
+					sb.Write(kb)
+					sb.WriteString(":" + mem.v)
+				}
+				sb.WriteString("}")
+			}
+			c.Run("C03.own_json", [][]byte{B(ver), []byte(sb.String())}, "", "C03.prop.own_json",
+				fmt.Sprintf("own JSON family %d first=%v %s", fi, first, desc))
+			c.Count("own_json")
+		}
+	}
 }
 
 func c03Desc(a [][]byte) string {
@@ -904,6 +1008,61 @@ func genC03(c *Ctx) {
 					m["depth"] = json.RawMessage(`654321`)
 					m[kv[0]] = json.RawMessage(kv[1])
 				})
+			}
+			// members written twice: a textual prefix on the (canonical) event, so that both copies
+			// reach the parser
+			raw := func(what string, tamper bool, prefix string) {
+				var m map[string]json.RawMessage
+				if json.Unmarshal(base, &m) != nil {
+					return
+				}
+				if tamper {
+					m["content"] = json.RawMessage(`{"body":"tampered","membership":"join"}`)
+				}
+				js, err := json.Marshal(m)
+				if err != nil {
+					return
+				}
+				if cj, err := gmsl.CanonicalJSON(js); err == nil {
+					js = cj
+				}
+				js = append([]byte("{"+prefix+","), js[1:]...)
+				c.Run("C03.untrusted", [][]byte{B(ver), js}, "C03.untrusted", "C03.prop.untrusted", "untrusted "+what+" "+c03Desc(a))
+				c.Count("untrusted/" + what)
+			}
+			// F67: every copy of a member discarded on receipt is discarded
+			for _, kv := range [][2]string{{"unsigned", `{"redacted_because":{"x":1},"prev_content":{"a":"b"}}`}, {"age_ts", `7`}, {"outlier", `true`}, {"destinations", `["evil.example"]`}} {
+				raw("twice "+kv[0], false, `"`+kv[0]+`":{},"`+kv[0]+`":`+kv[1])
+				if i == 0 || c.Thorough() {
+					raw("thrice "+kv[0], false, `"`+kv[0]+`":1,"`+kv[0]+`":`+kv[1]+`,"`+kv[0]+`":`+kv[1])
+					raw("twice "+kv[0]+" + hash fault", true, `"`+kv[0]+`":{},"`+kv[0]+`":`+kv[1])
+				}
+			}
+			mut("Unsigned (case variant)", true, set("Unsigned", `{"redacted_because":{"x":1}}`))
+			// F65: in the hash-derived ID formats no spelling or repetition of event_id is believed
+			if verImplOf(ver).EventFormat() == gmsl.EventFormatV2 {
+				vals := []string{`"$fake:x"`, `"$` + strings.Repeat("A", 43) + `"`, `"not an event ID"`, `"$x"`}
+				for vi, v := range vals {
+					if vi > 0 && i > 0 && !c.Thorough() {
+						break
+					}
+					for _, k := range []string{"Event_id", "EVENT_ID", "event_ID"} {
+						k, v := k, v
+						mut("event_id variant "+k+" hash-ok", true, set(k, v))
+						mut("event_id variant "+k+" hash-fault", false, func(m map[string]json.RawMessage) {
+							m["content"] = json.RawMessage(`{"body":"tampered","membership":"join"}`)
+							m[k] = json.RawMessage(v)
+						})
+					}
+					raw("event_id twice hash-ok", false, `"event_id":"$decoy:x","event_id":`+v)
+					raw("event_id twice hash-fault", true, `"event_id":"$decoy:x","event_id":`+v)
+					raw("event_id thrice", false, `"event_id":`+v+`,"event_id":"$decoy:x","event_id":`+v)
+				}
+			}
+			// F67 (b), recorded: members under a case variant of a name the event struct reads, LAST in
+			// wire order: the accessors of the first parse follow them, the event's own JSON() does not
+			if i == 0 || c.Thorough() {
+				c03OwnJSON(c, ver, base, c03Desc(a))
 			}
 			mut("underscore-key", true, set("_x", `1`))
 			mut("hashes-missing", false, func(m map[string]json.RawMessage) { delete(m, "hashes") })
